@@ -184,7 +184,8 @@ theorem newMask_ne (m : Mask) (add rem : List CompId) (hrem : RemOK m rem)
     (rows untouched), move the entity, mark the target, clean up the source -/
 theorem exchange_world (w : World) (e : Entity) (add rem : List CompId) (rel : Option CompId) (target : Entity) (x : Exchanged)
     (hok : (w.exchangeNoNotify e add rem rel target).out = .ok (some x)) :
-    ∃ tgt mask, exchangeMask (w.tableMask (w.locOf e).tbl) add rem = .ok mask ∧ ¬ (add = [] ∧ rem = []) ∧
+    ∃ tgt mask, exchangeMask (w.tableMask (w.locOf e).tbl) add rem = .ok mask ∧
+      w.exchangeTarget mask rel target (w.locOf e).tbl rem = .ok tgt ∧ ¬ (add = [] ∧ rem = []) ∧
       (w.findOrCreateTable (w.locOf e).tbl add rem tgt).2 = .ok x.tbl ∧
       (w.exchangeNoNotify e add rem rel target).w =
         ((((w.findOrCreateTable (w.locOf e).tbl add rem tgt).1.moveEntity e (w.locOf e) x.tbl).markTarget tgt).cleanupTable (w.locOf e).tbl) := by
@@ -215,7 +216,7 @@ theorem exchange_world (w : World) (e : Entity) (add rem : List CompId) (rel : O
     have hx : x.tbl = t := by
       simp only [Except.ok.injEq, Option.some.injEq] at hok
       rw [← hok]
-    refine ⟨tgt, mask, rfl, ?_, by rw [hx]; exact hf, by rw [hx]⟩
+    refine ⟨tgt, mask, rfl, htg, ?_, by rw [hx]; exact hf, by rw [hx]⟩
     intro ⟨ha, hr⟩
     subst ha; subst hr
     simp at hemp
@@ -252,7 +253,7 @@ theorem exchange_spec (w : World) (e : Entity) (add rem : List CompId) (rel : Op
     (∀ id t row, id ≠ e.id → At w id t row → At (w.exchangeNoNotify e add rem rel target).w id t row) ∧
     (∀ t, t < w.tables.size → (w.exchangeNoNotify e add rem rel target).w.tableIds t = w.tableIds t ∧
         (w.exchangeNoNotify e add rem rel target).w.tableMask t = w.tableMask t) := by
-  obtain ⟨tgt, mask, hmask, hne, hf, hw⟩ := exchange_world w e add rem rel target x hok
+  obtain ⟨tgt, mask, hmask, _, hne, hf, hw⟩ := exchange_world w e add rem rel target x hok
   rw [hw]
   generalize hsrc : w.locOf e = l at *
   have hv : validRow w l.tbl l.row := (hI.idx.fwd _ _ hl).1
